@@ -1068,6 +1068,9 @@ func (g *IG) owns(p *Program, fn *ssa.Function) bool {
 		if in[fo] {
 			continue
 		}
+		if strings.HasPrefix(f.Synthetic, "wrapper for") {
+			continue // promoted-method wrapper of an embedding type (e.g. System embeds Context): not a call site in the source
+		}
 		for _, b := range f.Blocks {
 			for _, ins := range b.Instrs {
 				for _, op := range ins.Operands(nil) {
